@@ -123,6 +123,8 @@ func (d *Doc) Apply(o Op) (err error, panicked bool) {
 		case "SetUse":
 			w.Cleanup()
 			w.SetUse(uses(a(0)))
+		case "SetUseUncleaned":
+			w.SetUse(uses(a(0)))
 		case "AddReplace":
 			return w.AddReplace(a(0), a(1), a(2), a(3)), false
 		case "DropReplace":
@@ -183,6 +185,10 @@ func (d *Doc) Apply(o Op) (err error, panicked bool) {
 		f.SetRequire(reqs(a(0)))
 	case "SetRequireSeparateIndirect":
 		f.Cleanup()
+		f.SetRequireSeparateIndirect(reqs(a(0)))
+	case "SetRequireUncleaned": // the bulk setters right after other edits, as a batch of edits would call them
+		f.SetRequire(reqs(a(0)))
+	case "SetRequireSeparateIndirectUncleaned":
 		f.SetRequireSeparateIndirect(reqs(a(0)))
 	default:
 		panic("unknown op " + o.Kind)
